@@ -104,7 +104,7 @@ type WorldOpts struct {
 	// the input class of open finding KF-C12-slash-delegate-tallies); OnExclude is called whenever that changes a draw.
 	NoDelegateRestake bool
 	OnExclude         func(id string)
-	MutateGen   func(*fsm.GenesisState)
+	MutateGen         func(*fsm.GenesisState)
 }
 
 // StakingParams are the default parameters with short deferred periods, so that deferred actions fire inside a history.
